@@ -53,6 +53,11 @@ def isPrefix : Str → Str → Bool
 
 def isSuffix (suf s : Str) : Bool := isPrefix suf.reverse s.reverse
 
+/-- `needle` occurs somewhere in `hay` (error texts may span several lines) -/
+def isInfix (needle : Str) : Str → Bool
+  | [] => needle.isEmpty
+  | c :: cs => isPrefix needle (c :: cs) || isInfix needle cs
+
 /-- `shown` is `full`, or a truncation of it: a prefix of `full` followed by `...` / `... (len=n)` -/
 def showsValue (full : Str) (vlen : Option Nat) (shown : Str) : Bool :=
   shown == full ||
@@ -148,9 +153,15 @@ def clausesC05 (evs : List Ev) (errText : Nat → Str) (rootError : Nat) (text :
       sp.all (fun c => (failedBranches calls c rootError).all (fun b =>
         specLines.any (showsValue b.spec b.slen) &&
         (match b.result with
-         | some e => lines.any (fun l => isSuffix (errText e) l)
+         | some e => isInfix (errText e) text.toList
          | none => true))) ]
   | _, _ => [false]
+
+def rstrip (s : Str) : Str := (s.reverse.dropWhile (fun c => c == ' ' || c == '\n' || c == '\t')).reverse
+
+/-- 5. the whole message ends with the type and message of the original error -/
+def endsWithRootError (errText : Nat → Str) (rootError : Nat) (message : String) : Bool :=
+  isSuffix (rstrip (errText rootError)) (rstrip message.toList)
 
 def checkC05 (evs : List Ev) (errText : Nat → Str) (rootError : Nat) (text : String) : Bool :=
   (clausesC05 evs errText rootError text).all id
